@@ -12,6 +12,7 @@
 //	faults <seed> <tier>      C15: fault-injecting JobQueue
 //	restart <seed> <n>        C05/C10: restart with the loop of the stopped run still alive
 //	poolstop <seed> <rounds>  C10: shutdown of a saturated worker pool
+//	busycancel <seed> <rounds> C10: cancellation of the Start context while the loop is held in a job / a queue call
 package main
 
 import (
@@ -224,6 +225,8 @@ func main() {
 		cmdRestart()
 	case "poolstop":
 		cmdPoolStop()
+	case "busycancel":
+		cmdBusyCancel()
 	default:
 		fmt.Fprintln(os.Stderr, "unknown subcommand", os.Args[1])
 		os.Exit(2)
